@@ -62,6 +62,8 @@ def to_case(o):
     if k == "sread":
         return "SRead %d %d %d %d %d %d %d %s %s %s" % (o["req"], o["ann"], o["count"], o["fsize"], o["off"], o["rtype"], o["rsize"], coq_bool(o["err"]),
                                                         opt(o.get("rcount")), opt(o.get("asked")))
+    if k == "sxread":
+        return "SXRead %d %d %d %d %d %d %d %s %s" % (o["req"], o["ann"], o["count"], o["off"], o["vlen"], o["rtype"], o["rsize"], coq_bool(o["err"]), opt(o.get("rcount")))
     if k == "sreaddir":
         return "SReaddir %d %d %d %s %d %d %s %s" % (o["req"], o["ann"], o["count"], sizes(o.get("sizes")), o["rtype"], o["rsize"], coq_bool(o["err"]), opt(o.get("rcount")))
     if k == "client":
